@@ -28,7 +28,7 @@ Fresh(e) ==
      fs |-> [ents |-> e.snap.ents, inos |-> e.snap.inos],
      fds |-> <<>>, dirty |-> {}, syncfail |-> {}, pubs |-> <<>>, supplied |-> {}, planted |-> {},
      cur |-> <<>>, steps |-> <<>>, listed |-> <<>>, tlisted |-> <<>>, created |-> <<>>, opfds |-> <<>>, opens |-> <<>>,
-     faulted |-> <<>>, faultcall |-> <<>>, unlinkfailed |-> <<>>, prune |-> <<>>, lastset |-> <<>>, lastok |-> <<>>, maybeset |-> <<>>,
+     faulted |-> <<>>, faultcall |-> <<>>, unlinkfailed |-> <<>>, prune |-> <<>>, lastset |-> <<>>, lastok |-> <<>>, maybeset |-> <<>>, lastret |-> <<>>,
      viol |-> {}, fsmis |-> {}, nsys |-> 0]
 
 InitSt == Fresh([job |-> "", run |-> 0, gran |-> 0, atime |-> "relatime", snap |-> EmptyFS])
@@ -116,7 +116,7 @@ CallStep(s, e) ==
 GoneStep(s, e) == [s EXCEPT !.fds = Del(@, e.p)]
 
 RetStep(s, e) ==
-    LET s1 == [s EXCEPT !.lastok = Put(@, e.p, e.ok)] IN
+    LET s1 == [s EXCEPT !.lastok = Put(@, e.p, e.ok), !.lastret = Put(@, e.p, e)] IN
     IF e.p \in DOMAIN s.cur /\ Has(s.cur[e.p], "val") /\ Has(s.cur[e.p], "key") THEN
         LET k == s.cur[e.p].key v == s.cur[e.p].val
             isset == e.api \in {"set", "set_tf"} \/ (e.api = "gou" /\ Has(s.cur[e.p], "judge") /\ s.cur[e.p].judge = "replace")
@@ -149,7 +149,7 @@ Violations(s, e, s2) ==
     IN
     (IF stateChanged THEN Mon("DirValid", DirValid(cfg, s2)) \cup Mon("DebrisConfined", DebrisConfined(cfg, s2)) ELSE {})
     \cup (IF e.e = "obs" THEN Mon("HandleContentOK", HandleContentOK(s, e)) \cup Mon("HandleModeOK", HandleModeOK(s, e))
-                               \cup Mon("ReadsLastSet", ReadsLastSet(s, e)) ELSE {})
+                               \cup Mon("ReadsLastSet", ReadsLastSet(s, e)) \cup Mon("StackOK", StackOK(cfg, s, e)) ELSE {})
     \cup (IF isSys \/ e.e \in {"crash", "age", "advdel"} THEN
               Mon("Immutable", ImmutableStep(s, e, s2)) \cup Mon("ROUntouched", ROUntouched(cfg, s, e, s2))
               \cup Mon("DotFilesUntouched", DotFilesUntouched(cfg, s, e, s2))
